@@ -488,20 +488,26 @@ def run_factory(case):
         taxa = {"A": 0.0, "B": float(rng.uniform(0, 1)), "C": 0.0, "D": float(rng.uniform(0, 1))}
         nwk = "((A:0.1,B:0.2):0.3,(C:0.15,D:0.25):0.2);"
         k = int(rng.integers(3))
+        # keyword passed explicitly as False must mean the same as leaving it out; True (unrooted) takes the lengths of the newick
+        keep = [None, False, True][int(rng.integers(3))]
+        kw = {} if keep is None else {"keep_branch_lengths": keep}
+        C["factory_keywords"] = ["keep_branch_lengths=%s" % keep]
         if k == 0:
-            spec = UnRootedTreeModel.json_factory("tree", nwk, [0.1, 0.2, 0.3, 0.4, 0.5], taxa)
+            spec = UnRootedTreeModel.json_factory("tree", nwk, [0.1, 0.2, 0.3, 0.4, 0.5], taxa, **kw)
             hand = {"id": "tree", "type": "UnRootedTreeModel", "newick": nwk, "branch_lengths": {"id": "bl", "type": "Parameter", "tensor": [0.1, 0.2, 0.3, 0.4, 0.5]},
                     "taxa": {"id": "taxa", "type": "Taxa", "taxa": [{"id": t, "type": "Taxon"} for t in taxa]}}
             f = lambda m: m.branch_lengths()
             name = "UnRootedTreeModel"
         elif k == 1:
-            spec = TimeTreeModel.json_factory("tree", nwk, [1.5, 1.6, 2.0], taxa, internal_heights_id="h")
+            kw = {} if keep is not False else kw
+            spec = TimeTreeModel.json_factory("tree", nwk, [1.5, 1.6, 2.0], taxa, internal_heights_id="h", **kw)
             hand = {"id": "tree", "type": "TimeTreeModel", "newick": nwk, "internal_heights": {"id": "h", "type": "Parameter", "tensor": [1.5, 1.6, 2.0]},
                     "taxa": {"id": "taxa", "type": "Taxa", "taxa": [{"id": t, "type": "Taxon", "attributes": {"date": v}} for t, v in taxa.items()]}}
             f = lambda m: m.branch_lengths()
             name = "TimeTreeModel"
         else:
-            spec = ReparameterizedTimeTreeModel.json_factory("tree", nwk, taxa, ratios=[0.4, 0.6], root_height=[2.5])
+            kw = {} if keep is not False else kw
+            spec = ReparameterizedTimeTreeModel.json_factory("tree", nwk, taxa, ratios=[0.4, 0.6], root_height=[2.5], **kw)
             hand = {"id": "tree", "type": "ReparameterizedTimeTreeModel", "newick": nwk, "ratios": {"id": "ratios", "type": "Parameter", "tensor": [0.4, 0.6]},
                     "root_height": {"id": "root_height", "type": "Parameter", "tensor": [2.5]},
                     "taxa": {"id": "taxa", "type": "Taxa", "taxa": [{"id": t, "type": "Taxon", "attributes": {"date": v}} for t, v in taxa.items()]}}
@@ -509,5 +515,9 @@ def run_factory(case):
             name = "ReparameterizedTimeTreeModel"
         _, dic = tt.load(spec)
         _, dic2 = tt.load(hand)
-        same(tt.as_np(f(dic["tree"]), "C13:json_factory:not-a-tensor"), tt.as_np(f(dic2["tree"]), "x"), name)
+        if k == 0 and keep is True:
+            # the two root branches are merged on the unrooted tree
+            same(np.sort(tt.as_np(f(dic["tree"]), "C13:json_factory:not-a-tensor").reshape(-1)), np.sort(np.array([0.1, 0.2, 0.15, 0.25, 0.5])), name + ":keep_branch_lengths=True")
+        else:
+            same(tt.as_np(f(dic["tree"]), "C13:json_factory:not-a-tensor"), tt.as_np(f(dic2["tree"]), "x"), name + ("" if keep is None else ":keep_branch_lengths=%s" % keep))
     return {"violations": V, "counters": C, "fingerprint": "factory|%d|%d" % (which, case["seed"]), "sample": None}
